@@ -13,6 +13,53 @@ ASSUMPTIONS = ["non-mutation and determinism are checked on the implementation"]
 TRUSTED = ["lean/Luqum/Model/Pretty.lean (hand-written)"]
 
 
+def search_around(ctx, I, rng, cases):
+    """The printer and its model disagree on these (tree, settings) although no generated query failed: look for a
+    failing input NEAR them. The field names and the words of a disagreeing tree are replaced by others from the
+    generator's pools (where the spellings that lex in a special way live: time-like words, escapes, reserved words
+    in another case ...); a variant counts only if it is a parsed query (its plain text parses to itself)."""
+    import copy
+    seen = 0
+    # smallest disagreeing trees first, one per shape
+    by_shape = {}
+    for c in sorted(cases, key=lambda c: len(list(common.tree_nodes(c[0])))):
+        by_shape.setdefault(repr([(p, n["c"]) for p, n in common.tree_nodes(c[0])]), c)
+    for d, indent, max_len, inline in list(by_shape.values())[:60]:
+        slots = [(p, n) for p, n in common.tree_nodes(d) if n["c"] in ("Word", "SearchField")]
+        if not slots:
+            continue
+        for _ in range(80):
+            d2 = copy.deepcopy(d)
+            nodes2 = dict(common.tree_nodes(d2))
+            for p, n in rng.sample(slots, min(len(slots), rng.choice([1, 2, 2, 3]))):
+                if n["c"] == "Word":
+                    nodes2[p]["v"] = rng.choice(gen.WORDS)
+                else:
+                    nodes2[p]["name"] = rng.choice(gen.FIELDS)
+                    if nodes2[p]["ch"][0]["c"] == "Word":      # name and value together: they meet in the text
+                        nodes2[p]["ch"][0]["v"] = rng.choice(gen.WORDS)
+            try:
+                q2 = str(common.load_tree(d2))
+            except Exception:
+                continue
+            r, t = parsing.impl_parse(q2)
+            if t is None or str(t) != q2:
+                continue
+            seen += 1
+            try:
+                out = I.pretty.Prettifier(indent=indent, max_len=max_len, inline_ops=inline)(t)
+            except Exception as e:
+                ctx.fail("Prettifier raised %s: %s" % (type(e).__name__, e), {"q": q2})
+                continue
+            r2, t2 = parsing.impl_parse(out)
+            info = {"q": q2, "tree": r["ok"], "indent": indent, "max_len": max_len, "inline_ops": inline, "pretty": out}
+            if t2 is None:
+                ctx.fail("the pretty-printed text is rejected by the parser", dict(info, err=r2))
+            elif not (t2 == t):
+                ctx.fail("the pretty-printed text parses to a different tree", dict(info, reparsed=repr(t2)))
+    ctx.count("search near the disagreements: parsed variants tried", seen)
+
+
 def run(ctx):
     I = common.impl()
     rng = ctx.rng
@@ -96,7 +143,12 @@ def run(ctx):
                              "a fresh printer's output" % (label, what),
                              dict(info, second_tree=d2, fresh=want, shared=got))
     if ctx.model_ok:
+        near = []
         for r, a, e in zip(reqs, common.ask_model(reqs), exp):
             if a != e:
                 ctx.disagree("Prettifier", {k: v for k, v in r.items() if k != "op"}, a, e)
+                near.append((r["tree"], r["indent"], r["max_len"], r["inline_ops"]))
         ctx.traces_validated = len(reqs)
+        if near:
+            rng.shuffle(near)
+            search_around(ctx, I, rng, near)
